@@ -92,6 +92,16 @@ def run(tier, seed):
         units += ex.bfs_units(cfg, entropy, bmm.grid_ops(grid, zero=False), 2 if tier == 'quick' else 3,
                               split=(tier != 'quick'), mode='real',
                               visitor='mc.bm_invariants.levy_identity_visitor', kinds=KINDS, opts=dict(grid=grid))
+    # two long sequential sweeps in different halves of the interval (no dt hint, < 100 queries each side of the
+    # warm-up): two chains deeper than 32 / 64 levels whose nodes share long path suffixes.  Every node must still have
+    # its own noise: probes are steps of both chains at the same depth.
+    deep_hist = [['q', 0.5, 1.0], ['sweepF', 0.0, 70, 0.005], ['sweepF', 0.5, 70, 0.005]]
+    deep_grid = [0.0, 0.17, 0.175, 0.18, 0.34, 0.345, 0.35, 0.5, 0.67, 0.675, 0.68, 0.84, 0.845, 0.85, 1.0]
+    for levy, cache in [('space-time', 45), ('none', 45), ('space-time', None), ('space-time', 2)]:
+        cfg = bmm.cfg_make(size=(1024,), levy=levy, cache_size=cache)
+        units.append(dict(kind='bfs', cfg=cfg, entropy=entropy, alphabet=[], prefix=deep_hist, depth=3, mode='labelled',
+                          K=1024, visitor='mc.bm_invariants.law_visitor', kinds=KINDS,
+                          opts=dict(grid=deep_grid, leaves=False)))
     # solver-shaped histories under labelled noise (tree built by the warm-up / dependency-tree code)
     pg = [0., 1 / 8, 1 / 3, 0.5, 100 / 130, 1.0]
     for levy, cache, dt in [('space-time', 45, None), ('none', 45, None), ('space-time', 2, None),
